@@ -93,7 +93,16 @@ D6 == << Tok("AA", "str", "x"), Tok("BB", "pat", "[0-9]+"), Tok("CC", "pre", "$I
 Orders6 == { <<1, 2, 3, 4, 5, 6, 7>>, <<7, 6, 5, 4, 3, 2, 1>>, <<4, 1, 5, 2, 6, 3, 7>>, <<5, 6, 4, 7, 1, 2, 3>>, <<4>>, <<1>>, <<5>>, <<6, 1>> }
 F6 == { Case("F6", <<>>) } \cup { Case("F6", [j \in 1..Len(o) |-> D6[o[j]]]) : o \in Orders6 }
 
-All == F1 \cup F2 \cup F2b \cup F2c \cup F2d \cup F3 \cup F4 \cup F6
+\* ---- F7: string literals written with escapes (the terminal is the text between the quotes, escapes included) ----
+EQ == TStr("\\\"")      \* "\""
+EB == TStr("\\\\")     \* "\\"
+EN == TStr("\\n")       \* "\n"
+EM == TStr("a\\\"b")    \* "a\"b"
+F7 == { Case("F7", <<Rule("start", Alt(Cat(EQ, EB), EM)), Rule("x", Un(op, EN))>>) : op \in UnaryOps }
+      \cup { Case("F7", <<Rule("start", Alt(Cat(Cat(NT("start"), EQ), NT("start")), Alt(Cat(Cat(NT("start"), EB), NT("start")), EM))),
+                           Dir("left", <<HTerm("\\\"", TRUE)>>), Dir(a, <<HTerm("\\\\", TRUE), HTerm("a\\\"b", TRUE)>>)>>) : a \in {"left", "right", "none"} }
+
+All == F7 \cup F1 \cup F2 \cup F2b \cup F2c \cup F2d \cup F3 \cup F4 \cup F6
 ASSUME /\ ndJsonSerialize("gen_specs.ndjson", SetToSeq(All))
        /\ PrintT(<<"GENERATED", Cardinality(All), "F1", Cardinality(F1), "F2", Cardinality(F2) + Cardinality(F2b) + Cardinality(F2c) + Cardinality(F2d), "F3", Cardinality(F3), "F4", Cardinality(F4)>>)
 =============================================================================
